@@ -267,7 +267,10 @@ theorem insertKnot_periodic (b : Basis K) (hv : b.Valid) (k : ℕ) (hk : b.perio
       b'.numFunctions = b.numFunctions + 1 ∧ b'.start = b.start ∧ b'.stop = b.stop ∧
       (∀ j, b.order + k < j → j < b.numFunctions + 1 →
         b'.kn j = insertSeq b.kn (b.bisectR x) x j) ∧
-      Shape (b.numFunctions + 1) b.numFunctions C := by
+      Shape (b.numFunctions + 1) b.numFunctions C ∧
+      (∀ j, j < b.knots.size + 1 →
+        b'.kn j = repSeq (insertSeq b.kn (b.bisectR x) x) (b.bisectR x) b.numFunctions (b.order + k) j) ∧
+      C = matC b.kn x b.numFunctions b.order (b.bisectR x) := by
   have hmono : Monotone b.kn := kn_mono hv.sorted
   have hp := hv.order_pos
   have hsz := hv.size_ge
@@ -342,7 +345,8 @@ theorem insertKnot_periodic (b : Basis K) (hv : b.Valid) (k : ℕ) (hk : b.perio
     change (repair b knots1 mu).size - b.order - (k + 1) = _
     rw [hrs]; omega
   refine ⟨{ b with knots := repair b knots1 mu }, matC b.kn x n b.order mu, ?_, ?_, rfl, rfl, ?_,
-    hnum, hstart, hstop, ?_, (rel_matC _ _ _ _ _ (by omega)).1⟩
+    hnum, hstart, hstop, ?_, (rel_matC _ _ _ _ _ (by omega)).1,
+    fun j hj => hkn' j (by rw [hk1size]; omega), rfl⟩
   · rw [insertKnot_eq]
     have hw : wrapX b x = .ok x := by
       unfold wrapX
